@@ -99,4 +99,59 @@ theorem address_keyed_table_marks_live_peer_failed :
     targets m "self" = ["new"] ∧ targetsByTable p = [] ∧ p.get "10.0.0.2:9094" = some ⟨"new", .failed⟩ := by
   decide
 
+/-! ### position in the cluster -/
+
+theorem position_cons (e : String × String) (m : Members) (s : String) :
+    position (e :: m) s = position m s + (if e.1 < s then 1 else 0) := by
+  unfold position
+  by_cases h : e.1 < s <;> simp [h]
+
+theorem position_mono (m : Members) (a b : String) (hab : a < b) : position m a ≤ position m b := by
+  induction m with
+  | nil => simp [position]
+  | cons e rest ih =>
+    rw [position_cons, position_cons]
+    by_cases h : e.1 < a
+    · have : e.1 < b := String.lt_trans h hab
+      simp [h, this]; exact ih
+    · simp [h]; omega
+
+theorem position_lt_of_lt (m : Members) (a b addr : String) (ha : (a, addr) ∈ m) (hab : a < b) :
+    position m a < position m b := by
+  induction m with
+  | nil => cases ha
+  | cons e rest ih =>
+    rw [position_cons, position_cons]
+    rcases List.mem_cons.mp ha with h | h
+    · subst h
+      have h1 : ¬ a < a := String.lt_irrefl a
+      have := position_mono rest a b hab
+      simp [h1, hab]; omega
+    · have := ih h
+      by_cases h1 : e.1 < a
+      · have : e.1 < b := String.lt_trans h1 hab
+        simp [h1, this]; omega
+      · simp [h1]; omega
+
+/-- **Members that agree on the member list hold pairwise distinct positions** (the staggering of
+    `AM.Cluster.healthy_no_duplicate` rests on it): position is a function of memberlist's view alone. -/
+theorem positions_distinct (m : Members) (a b addra addrb : String) (ha : (a, addra) ∈ m) (hb : (b, addrb) ∈ m)
+    (hne : a ≠ b) : position m a ≠ position m b := by
+  by_cases h1 : a < b
+  · have := position_lt_of_lt m a b addra ha h1; omega
+  · by_cases h2 : b < a
+    · have := position_lt_of_lt m b a addrb hb h2; omega
+    · exact absurd (String.le_antisymm (String.not_lt.mp h2) (String.not_lt.mp h1)) hne
+
+/-- A peer that crashed and came back on its address under a new name that sorts first ("a"): at the survivor "m"
+    the new name joins, then the old name ("z") is declared dead.  memberlist lists {a, m}: positions 0 and 1.  The
+    address-keyed table marks the entry that by now names "a" failed: counted from the table, "m" is at position 0
+    as well — two live instances notify without waiting. -/
+theorem table_position_collides :
+    let evs := [Ev.join "m" "10.0.0.1:9094", Ev.join "z" "10.0.0.2:9094", Ev.join "a" "10.0.0.2:9094", Ev.leave "z" "10.0.0.2:9094"]
+    let m := evs.foldl mstep []
+    let p := evs.foldl pstep []
+    position m "a" = 0 ∧ position m "m" = 1 ∧ positionByTable p "m" = 0 := by
+  decide
+
 end AM.Registry
